@@ -247,6 +247,9 @@ def schedule(rng, base=False):
     if rng.random() < 0.3:
         # hash threads of the director that are slow to start are part of the schedule space
         cfg["thread_delay"] = {"p": rng.choice([0.3, 1.0]), "max": 0.02, "seed": rng.randrange(1 << 30)}
+    if rng.random() < 0.3:
+        # ... and so are tasks that have to wait for the database lock
+        cfg["db_delay"] = {"p": rng.choice([0.1, 0.4]), "max": 0.003, "seed": rng.randrange(1 << 30)}
     return cfg, rng.choice(["free", "jitter", "jitter", "serial", "serial"])
 
 
